@@ -429,3 +429,67 @@ pub fn run_mock<C: Circuit<Fq>>(k: u32, circuit: &C, edits: &[CellEdit], record:
     out.prover = Some(p);
     out
 }
+
+// ---------------------------------------------------------------- Byzantine prover, late edits (hook H2)
+
+/// A late edit: after the honest witness generation has finished, the value of
+/// one advice cell is replaced in the checker's tables, together with every
+/// advice cell its copy constraints tie it to (so that the permutation
+/// argument stays satisfied). Unlike an H1 fault it cannot be stopped by an
+/// assertion of the witness generator, and nothing downstream is recomputed.
+#[derive(Clone, Debug, Serialize, Deserialize, PartialEq)]
+pub struct LateEdit {
+    pub col: usize,
+    pub row: usize,
+    pub val: FaultVal,
+}
+
+/// Assigned advice cells (column, row, value) in the usable rows.
+pub fn assigned_advice_cells(p: &MockProver<Fq>) -> Vec<(usize, usize, Fq)> {
+    let end = p.usable_rows().end;
+    let mut out = vec![];
+    for (ci, col) in p.advice().iter().enumerate() {
+        for (ri, c) in col.iter().enumerate().take(end) {
+            if let CellValue::Assigned(v) = c {
+                out.push((ci, ri, *v));
+            }
+        }
+    }
+    out
+}
+
+/// Applies the edit to the whole copy cycle of the cell. Returns the advice
+/// cells changed, or None when the cycle contains a fixed cell (a constant
+/// cannot be changed by the prover) or the cell is not assigned.
+pub fn apply_late(p: &mut MockProver<Fq>, e: &LateEdit) -> Option<Vec<(usize, usize)>> {
+    use rayon::iter::ParallelIterator;
+    let old = match p.advice().get(e.col)?.get(e.row)? {
+        CellValue::Assigned(v) => *v,
+        _ => return None,
+    };
+    let new = e.val.apply(old);
+    if new == old {
+        return None;
+    }
+    let cols = p.permutation().columns().to_vec();
+    let mut cells = vec![(e.col, e.row)];
+    if let Some(ci) = cols.iter().position(|c| kind(c) == 0 && c.index() == e.col) {
+        let mapping: Vec<Vec<(usize, usize)>> = p.permutation().mapping().map(|c| c.collect::<Vec<_>>()).collect();
+        let mut cur = mapping[ci][e.row];
+        let mut guard = 0;
+        while cur != (ci, e.row) && guard < 1 << 20 {
+            let c = cols[cur.0];
+            match kind(&c) {
+                0 => cells.push((c.index(), cur.1)),
+                1 => return None,
+                _ => {}
+            }
+            cur = mapping[cur.0][cur.1];
+            guard += 1;
+        }
+    }
+    for (c, r) in &cells {
+        p.advice_mut()[*c][*r] = CellValue::Assigned(new);
+    }
+    Some(cells)
+}
